@@ -137,3 +137,30 @@ Section ObjSpec.
 
   Definition c04_hspec_run (h : c04_hspec) (ops : list c04_hop) : c04_hspec := fold_left c04_hspec_step ops h.
 End ObjSpec.
+
+(* ---- executions of the ring and of the neighbour mode ------------------------------------------------------- *)
+Fixpoint c04_sum (n : nat) (f : nat -> nat) : nat := match n with O => 0 | S n => c04_sum n f + f n end.
+
+Definition c04_ring_step (P : nat) (cfg cfg' : c04_ring_cfg) : Prop :=
+  exists p, p < P /\ c04_ring_enabled cfg p <> None /\ cfg' = c04_ring_fire P cfg p.
+Inductive c04_ring_reach (P : nat) (msgs : list c04_msg) : nat -> c04_ring_cfg -> Prop :=
+| C04_rr_init : c04_ring_reach P msgs 0 (c04_ring_init P msgs)
+| C04_rr_step : forall n cfg cfg', c04_ring_reach P msgs n cfg -> c04_ring_step P cfg cfg' -> c04_ring_reach P msgs (S n) cfg'.
+Definition c04_ring_final (P : nat) (cfg : c04_ring_cfg) : Prop := forall p, p < P -> c04_rk_prog (cfg p) = [].
+Definition c04_ring_remaining (P : nat) (cfg : c04_ring_cfg) : nat := c04_sum P (fun p => length (c04_rk_prog (cfg p))).
+
+Definition c04_nb_step (P : nat) (cfg cfg' : c04_nb_cfg) : Prop :=
+  (exists p, p < P /\ c04_nb_post cfg p = Some cfg') \/ (exists q p, q < P /\ p < P /\ c04_nb_recv cfg q p = Some cfg').
+Inductive c04_nb_reach (P : nat) (hints : list (list nat)) : c04_nb_cfg -> Prop :=
+| C04_nr_init : c04_nb_reach P hints (c04_nb_init hints)
+| C04_nr_step : forall cfg cfg', c04_nb_reach P hints cfg -> c04_nb_step P cfg cfg' -> c04_nb_reach P hints cfg'.
+(* MPI_Waitall returns: everything posted, everything received, every send matched *)
+Definition c04_nb_final (P : nat) (cfg : c04_nb_cfg) : Prop :=
+  forall p, p < P -> c04_nb_topost (cfg p) = [] /\ c04_nb_posted (cfg p) = [] /\ c04_nb_nrecv (cfg p) = 0.
+Definition c04_nb_measure (P : nat) (cfg : c04_nb_cfg) : nat :=
+  c04_sum P (fun p => 2 * length (c04_nb_topost (cfg p)) + length (c04_nb_posted (cfg p)) + c04_nb_nrecv (cfg p)).
+(* "consistent" hints (the rank itself already erased): valid ranks, no duplicates, not the rank itself, and symmetric *)
+Definition c04_hints_consistent (P : nat) (hints : list (list nat)) : Prop :=
+  length hints = P /\
+  forall p, p < P -> NoDup (nth p hints []) /\ ~ In p (nth p hints []) /\
+                     forall q, In q (nth p hints []) -> q < P /\ In p (nth q hints []).
